@@ -112,6 +112,11 @@ def run(ctx):
         n = rng.choice([1, 2, 30, 200, 400])
         idx = pd.date_range(pd.Timestamp(2020 + rng.randrange(2), rng.randrange(1, 13), rng.randrange(1, 28), tz=tz), periods=n, freq="D")
         T = np.array([rng.choice([np.nan, np.inf, -np.inf]) if rng.random() < 0.15 else round(rng.uniform(0, 100), 1) for _ in range(n)])
+        # finite but extreme temperatures (a feed's missing-value code such as 999.9 / -9999, absolute zero, a huge number): they are
+        # finite, so the day is predicted and keeps its usage like any other day
+        for i in range(n):
+            if rng.random() < 0.06:
+                T[i] = rng.choice([999.9, 9999.0, -9999.0, -459.67, 151.0, -150.5, 1e6])
         has_obs = rng.random() < 0.75
         df = pd.DataFrame({"temperature": T}, index=idx)
         if has_obs:
